@@ -5,6 +5,7 @@ import json
 import multiprocessing as mp
 import os
 import shutil
+import signal
 import subprocess
 import sys
 import tempfile
@@ -324,6 +325,14 @@ def main(argv=None):
         REPLAY_DIR = os.path.join(EVIDENCE_DIR, "replays")
     mod = importlib.import_module(f"harness.props.{a.pid.lower()}")
     ctx = Ctx(a.pid, a.tier, a.seed)
+
+    def _terminated(signum, frame):
+        # a check ended from outside (time limit) must not leave its scratch directory (traces) behind
+        ctx.cleanup()
+        os._exit(2)
+
+    main_pid = os.getpid()
+    signal.signal(signal.SIGTERM, lambda s, f: _terminated(s, f) if os.getpid() == main_pid else os._exit(1))
     try:
         if a.replay:
             with open(a.replay) as f:
